@@ -83,6 +83,8 @@ def map_method(it, m, name, argv, node):
         return MList([k for k, _ in m.d.values()])
     if name == "values":
         return MList([v for _, v in m.d.values()])
+    if name == "pairs":
+        return MList([MList([k, v]) for k, v in m.d.values()])
     raise ValueError("no model for map." + name)
 
 
